@@ -113,6 +113,20 @@ fn structural() -> Vec<String> {
     v.push(format!("type T = {}number", "number | ".repeat(500)));
     v.push(format!("type T = {}number{}", "{".repeat(MAX_NEST), "}".repeat(MAX_NEST)));
     v.push(format!("return `{}`", "{x}".repeat(500)));
+    // every escape form, well-formed and malformed, in the three kinds of string (the reader of literals is code of
+    // darklua itself, not of the parser dependency)
+    for esc in [
+        "\\u{D800}", "\\u{DFFF}", "\\u{DBFF}\\u{DC00}", "\\u{10FFFF}", "\\u{110000}", "\\u{FFFFFFFF}", "\\u{100000000}", "\\u{FFFFFFFFFFFFFFFFFFFF}", "\\u{}", "\\u{", "\\u{0", "\\u{g}", "\\u", "\\u{0000000000041}", "\\u{ 41 }",
+        "\\x", "\\x4", "\\xZZ", "\\xFF", "\\x00", "\\255", "\\256", "\\999", "\\1234", "\\0", "\\00", "\\z", "\\z  \n  x", "\\\n", "\\\r\n", "\\\r", "\\q", "\\", "\\\\", "\\'", "\\\"", "\\`", "\\{", "\\a\\b\\f\\n\\r\\t\\v",
+    ] {
+        for q in ['"', '\'', '`'] {
+            v.push(format!("return {q}{esc}{q}"));
+            v.push(format!("return {q}a{esc}b{q}"));
+            v.push(format!("return {q}{esc}"));
+        }
+        v.push(format!("return `{{x}}{esc}{{y}}`"));
+        v.push(format!("local t: {{ [\"{esc}\"]: number }} = {{}}"));
+    }
     v
 }
 
